@@ -14,7 +14,7 @@ the harness under /tmp/audit (removed afterwards), so /repo and /verif/evidence 
 never touched and work on /verif can continue; without it the patch is applied to
 /repo itself (the way a seeded change is confirmed).
 
-usage: tools/audit.py [--scratch] [--target-only] [--only <substr>] [--checks C01,C05] [--tier quick|thorough] [--no-baseline]
+usage: tools/audit.py [--scratch] [--target-only] [--only <substr>] [--checks C01,C05] [--tier quick|thorough] [--no-baseline] [--targets C01,C07] [--shard k/n --report f]
 """
 import glob, json, os, re, subprocess, sys, time
 
@@ -44,6 +44,7 @@ def main():
     target_only = False
     report_override = None
     shard = None
+    targets = None
     i = 0
     while i < len(args):
         if args[i] == "--only":
@@ -60,6 +61,8 @@ def main():
             target_only = True; i += 1
         elif args[i] == "--report":
             report_override = args[i + 1]; i += 2
+        elif args[i] == "--targets":
+            targets = set(args[i + 1].split(",")); i += 2
         elif args[i] == "--shard":
             shard = tuple(int(x) for x in args[i + 1].split("/")); i += 2
         else:
@@ -69,6 +72,17 @@ def main():
     patches = sorted(glob.glob(f"{VERIF}/seeded/*/patch.diff")) + sorted(glob.glob(f"{VERIF}/mutants/*.patch"))
     if only:
         patches = [p for p in patches if only in p]
+    if targets:
+        def target_of(p):
+            mp = os.path.join(os.path.dirname(p), "meta.json")
+            if p.endswith("patch.diff") and os.path.exists(mp):
+                t = json.load(open(mp)).get("property")
+                if t:
+                    return t
+            name = os.path.basename(os.path.dirname(p)) if p.endswith("patch.diff") else os.path.basename(p)
+            m = re.match(r"(C\d+)", name)
+            return m.group(1) if m else None
+        patches = [p for p in patches if target_of(p) in targets]
     if shard:
         patches = [p for k, p in enumerate(patches) if k % shard[1] == shard[0]]
     global REPO
